@@ -1445,6 +1445,9 @@ func main() {
 		cqSeqCase(r, ops)
 	}
 
+	// --- element types, machine-word arguments, constructor forms (legs3.go; oracle-only)
+	typeLegs(r)
+
 	// --- failing-input search legs (search.go). They run before the free-running goroutine cases: a forced schedule
 	// (stalled lock holder) gives a replay that reproduces, a lucky free-running one may not.
 	if r.Search {
